@@ -617,15 +617,13 @@ package plugin
 //@   nopanic [C09.total] [C20.nopanic]
 //@   bounded peer-dead [C09.timer]
 //@   requires !held(m.Mutex) && p != nil && p.ch != nil && p.doneCh != nil && !closed(p.ch)
-//@   modifies mapof(m.streams), tokens, conns_open, tw_expired, tw_drained
+//@   modifies mapof(m.streams), tokens, conns_open, tw_drained
 //@   after select#2 set tokens := ite(index == 0, tokens + 1, tokens)
-//@   local tw_expired: Bool := false
 //@   local tw_drained: Bool := false
-//@   after select#1 set tw_expired := index == 1
 //@   after select#2 set tw_drained := true
 //@   ensures !held(m.Mutex)   [C09.balance]
 //@   ensures tokens == old(tokens)   [C09.own]
-//@   ensures tw_expired ==> tw_drained   [C09.own]
+//@   ensures timeout ==> tw_drained   [C09.own]
 
 //@ func (*MuxBroker).Accept
 //@   nopanic [C06.total] [C03.d] [C20.nopanic]
